@@ -563,7 +563,11 @@ def run(cx, rep):
             rep.notes.append("could not evaluate %s inside C04: %s" % (rid, e))
             continue
         r = sub.rules.get(rid, {"obligations": 0, "discharged": 0})
-        bad = [v for v in sub.violations if v["rule"] == rid]
+        import json as _json, os as _os
+        _kf = _json.load(open(_os.path.join(cx.verif, "known_findings.json")))
+        _known_elsewhere = {e["key"] for e in _kf.get("findings", [])}
+        # findings already recorded (with witness) under the invariant's own property are reported there
+        bad = [v for v in sub.violations if v["rule"] == rid and v["key"] not in _known_elsewhere]
         rep.ob("C04.inv", inv, not bad,
                "%s is violated (%s): the assert/unreachable sites the census classifies under it become reachable: %s" % (inv, rid, "; ".join(v["msg"][:200] for v in bad[:2])),
                bad[0]["loc"] if bad else None, sample={"invariant": inv, "rule": rid, "obligations": r["obligations"], "discharged": r["discharged"]})
